@@ -1,9 +1,12 @@
 #!/bin/sh
 # usage: mkworktree.sh DIR   -- scratch git worktree of /repo (HEAD) with the ignored autotools files and
-# build products copied in, so that `make` and `make -k check` work there at once
+# build products copied in, so that `make` and `make -k check` work there at once (only changed files rebuild)
 set -e
 D="$1"
 git -C /repo worktree add --detach "$D" HEAD >/dev/null 2>&1
 rsync -a --ignore-existing --exclude .git /repo/ "$D"/
-# libtool / Makefiles contain absolute paths to /repo only through srcdir-relative names; a plain make works
+# the checkout gave the sources fresh mtimes; make the copied build products newer still
+sleep 1
+find "$D" \( -name '*.o' -o -name '*.lo' -o -name '*.la' -o -name '*.a' -o -name '*.so*' -o -path '*/.libs/*' -o -name '*.Po' -o -name '*.Plo' \) -type f -exec touch {} +
+find "$D/tests" "$D/examples" -maxdepth 1 -type f -perm -u+x ! -name '*.sh' ! -name '*.cc' -exec touch {} + 2>/dev/null || true
 echo "$D ready"
